@@ -30,6 +30,10 @@ func nameSpaceEvaluation(
 		ctx.SetFrame(base.CalculateFrame(frame, parentClass))
 		t = base.MakeConst(t.ToString())
 
+	// single char class (e.g: M::H)
+	case len(class) == 1 && base.IsClassDefined([]string{base.CalculateFrame(frame, parentClass)}, class):
+		ctx.SetFrame(base.CalculateFrame(frame, parentClass))
+
 	default:
 		ctx.SetFrame(frame)
 		ctx.SetClass(parentClass)
